@@ -6,7 +6,7 @@
    executable surrogate pow_s used by the correspondence check. *)
 From Coq Require Import QArith Qminmax List Bool.
 From WSI Require Import Vqip Pow CoreLaws Decay.
-From WSI Require Tank Arc QTank TankLaws QTankLaws QueueLaws DecayStores DecayQTank.
+From WSI Require Tank Arc QTank TankLaws QTankLaws QueueLaws DecayStores DecayQTank Distrib Kinds TimeArea TimeAreaLaws.
 From WSI.gen Require Import GenCore.
 Import ListNotations.
 Open Scope Q_scope.
@@ -134,3 +134,15 @@ Theorem C11_decaying_queue_tank_ledger : forall ops t, Forall WSI.DecayQTank.qop
             WSI.DecayQTank.qledger t' /\ WSI.DecayQTank.plain_quiet t'.
 Proof. exact WSI.DecayQTank.qtank_run_ledger. Qed.
 Print Assumptions C11_decaying_queue_tank_ledger.
+
+(* reaching into a decaying queue tank from outside (QueueGroundwater.pull_set_active): the decay the queue has applied
+   and the next close-out still has to book is neither dropped nor rescaled by an abstraction - the report stays, and
+   what the tank declares remains what it holds plus that report *)
+Theorem C11_abstraction_leaves_the_pending_decay_alone : forall S (n : TimeArea.qnode S) q, DecayQTank.qledger (TimeArea.qn_t S n) ->
+  DecayQTank.qledger (TimeArea.qn_t S (fst (TimeArea.qg_pull_set S n q))) /\
+  (forall c, conserved c ->
+     cmp c (snd (TimeArea.qg_pull_set S n q)) ==
+     cmp c (QTank.s_sto (QTank.qt_s (TimeArea.qn_t S n))) - cmp c (QTank.s_sto (QTank.qt_s (TimeArea.qn_t S (fst (TimeArea.qg_pull_set S n q)))))) /\
+  Arc.l_decayed (QTank.qt_l (TimeArea.qn_t S (fst (TimeArea.qg_pull_set S n q)))) = Arc.l_decayed (QTank.qt_l (TimeArea.qn_t S n)).
+Proof. exact TimeAreaLaws.qg_pull_ledger. Qed.
+Print Assumptions C11_abstraction_leaves_the_pending_decay_alone.
